@@ -344,6 +344,7 @@ Definition registered_b (cons : list (bytes * bytes)) (c : bytes) : bool :=
 (* checks on a post-state dump that do not depend on the operation *)
 Definition check_dump (lv : live) (dump : node) (disp : bytes) : list finding :=
   fl (inv_b dump) FInv []
+  ++ fl (wf dump && tidy dump) FInv []
   ++ fl (canonical_b dump) FCanonical []
   ++ fl (routes_same (routes_of dump) (live_routes lv)) FRoutes []
   ++ fl (beqb (display dump) disp) FDisplay [display dump; disp].
